@@ -25,7 +25,7 @@ def plan(tier):
                 'sendall (successes, each error class, parse failures, authentication failures, unsupported '
                 'versions, stale/future time stamps, asynchronous/UNDO requests, oversize replacement) is '
                 'checked against the envelope rules; a cell is (source, class or operation, version, outcome)',
-        'min_monitor': {'responses_validated_beside_other_sessions': 150, 'encodings_compared_with_the_encoding_alone': 500, 'encodings_validated': 5000, 'primitives_compared_with_reference': 150, 'primitive_writes_observed': 50000, 'built_responses_validated': 200,
+        'min_monitor': {'echoed_leaves_with_another_length': 500, 'responses_validated_beside_other_sessions': 150, 'encodings_compared_with_the_encoding_alone': 500, 'encodings_validated': 5000, 'primitives_compared_with_reference': 150, 'primitive_writes_observed': 50000, 'built_responses_validated': 200,
                         'responses_validated': 400, 'error_responses_validated': 100},
         'assumptions': ['kv/ttlv_ref.py transcribes KMIP 1.x section 9.1',
                         'a reply to a request the session did not decode may carry version 1.0',
@@ -370,6 +370,28 @@ def garbage_frames(rng, valid):
     rnd = bytes(rng.getrandbits(8) for _ in range(rng.choice((8, 16, 40))))
     out.append(('random', b'\x42\x00\x78\x01' + struct.pack('!I', len(rnd)) + rnd))
     out.append(('empty', b'\x42\x00\x78\x01' + struct.pack('!I', 0)))
+    # a leaf of a fixed-size type that announces another length (the bytes stay as they are): whatever the decoder makes of
+    # it, an object read from it and written back must not carry the stale length into the response
+    leaves = []
+
+    def walk_(p, end):
+        while p + 8 <= end:
+            typ = valid[p + 3]
+            n = struct.unpack('!I', valid[p + 4:p + 8])[0]
+            if typ == T.STRUCTURE:
+                walk_(p + 8, min(p + 8 + n, end))
+                p += 8 + n
+            else:
+                if typ in T.FIXED:
+                    leaves.append((p, typ, n))
+                p += 8 + (n + 7) // 8 * 8
+    walk_(0, len(valid))
+    bools = [l for l in leaves if l[1] == T.BOOL]
+    for pool in (bools, leaves, leaves):
+        if pool:
+            p_, typ_, n_ = rng.choice(pool)
+            m_ = rng.choice([x for x in (0, 1, 4, 8, 16) if x != n_])
+            out.append(('leaf-length:%s' % T.TYPE_NAMES.get(typ_, typ_), valid[:p_ + 4] + struct.pack('!I', m_) + valid[p_ + 8:]))
     return [(k, f) for k, f in out if k != 'truncated-body']
 
 
@@ -548,5 +570,60 @@ def run_session(ctx, case):
                     if len(ctx.samples) < 6 and outcome not in ('SUCCESS',) and rng.random() < 0.1:
                         ctx.sample({'kind': fkind, 'outcome': outcome, 'response_hex': resp.hex()[:240]})
                 clock.advance(1)
+            # what the server writes back from the request: a wrapped Get returns the key wrapping data built from the
+            # request's own specification objects.  Every fixed-size leaf of that specification (booleans, integers,
+            # enumerations of the cryptographic parameters) is sent with another announced length: refused, or answered with
+            # a well-formed response
+            wk_ = store.register(srv, 'sym', 'alice', rng, value=bytes(range(16)), masks=[E.CryptographicUsageMask.WRAP_KEY],
+                                 state='active', names=['c02-kek'])
+            tk_ = store.register(srv, 'sym', 'alice', rng, value=bytes(range(16, 32)), state='pre', names=['c02-wrapped'])
+            if wk_ is not None and tk_ is not None:
+                spec = wrap_spec(wk_.uid)
+                spec.encryption_key_information.cryptographic_parameters = cparams(
+                    block_cipher_mode=E.BlockCipherMode.NIST_KEY_WRAP, random_iv=rng.choice((True, False)), iv_length=rng.choice((8, 16)),
+                    tag_length=rng.choice((None, 16)), fixed_field_length=rng.choice((None, 4)), initial_counter_value=rng.choice((None, 1)))
+                v_ = rng.choice(((1, 2), (1, 4), (2, 0)))
+                try:
+                    valid = rig.encode_request(rig.build_request(v_, [op_get(tk_.uid, wrap=spec)]), v_)
+                except Exception:
+                    valid = None
+                if valid is not None:
+                    at = valid.find(bytes.fromhex('42004701'))      # Key Wrapping Specification
+                    n_spec = struct.unpack('!I', valid[at + 4:at + 8])[0] if at >= 0 else 0
+                    p_ = at + 8
+                    leaves = []
+
+                    def walk_(p, end):
+                        while p + 8 <= end:
+                            typ = valid[p + 3]
+                            n = struct.unpack('!I', valid[p + 4:p + 8])[0]
+                            if typ == T.STRUCTURE:
+                                walk_(p + 8, min(p + 8 + n, end))
+                                p += 8 + n
+                            else:
+                                if typ in T.FIXED:
+                                    leaves.append((p, typ, n))
+                                p += 8 + (n + 7) // 8 * 8
+                    if at >= 0:
+                        walk_(p_, p_ + n_spec)
+                    for lp, typ_, n_ in leaves:
+                        for m_ in (0, 1, 4, 8, 16):
+                            if m_ == n_:
+                                continue
+                            fr = valid[:lp + 4] + struct.pack('!I', m_) + valid[lp + 8:]
+                            sent, esc = rig.session_roundtrip(srv.engine, fr, cert_ok, rng)
+                            ctx.ev()
+                            if esc is not None or len(sent) != 1:
+                                ctx.count('no_single_response')
+                                continue
+                            ctx.count('responses_validated')
+                            ctx.count('echoed_leaves_with_another_length')
+                            info, problems = T.check_response_envelope(sent[0])
+                            ctx.cell('session', 'echoed-leaf-length', T.TYPE_NAMES.get(typ_, typ_), 'malformed' if problems else 'ok')
+                            for rule, text in problems:
+                                ctx.violation('%s|echoed-leaf-length:%s' % (rule, T.TYPE_NAMES.get(typ_, typ_)),
+                                              'a wrapped Get whose specification holds a %s announcing %d bytes is answered with a response that '
+                                              'violates the envelope: %s' % (T.TYPE_NAMES.get(typ_, typ_), m_, text),
+                                              {'request': fr.hex()[:800], 'response': sent[0].hex()[:800]})
         finally:
             srv.close()
